@@ -23,12 +23,14 @@ func (this *C40Encoder) getEncodingMode() int {
 func (this *C40Encoder) encode(context *EncoderContext) error {
 	//step C
 	buffer := make([]byte, 0)
+	charSizes := make([]int, 0) // number of values each character took in buffer
 	for context.HasMoreCharacters() {
 		c := context.GetCurrentChar()
 		context.pos++
 
 		var lastCharSize int
 		lastCharSize, buffer = this.encodeChar(c, buffer)
+		charSizes = append(charSizes, lastCharSize)
 
 		unwritten := (len(buffer) / 3) * 2
 
@@ -42,11 +44,16 @@ func (this *C40Encoder) encode(context *EncoderContext) error {
 		if !context.HasMoreCharacters() {
 			//Avoid having a single C40 value in the last triplet
 			removed := make([]byte, 0)
+			// A backtrack removes the values of the character that is last in the buffer at
+			// that moment. A last character of more than two values is an upper-shifted one,
+			// which takes two ASCII codewords: it cannot use the ending with one codeword free.
 			if (len(buffer)%3) == 2 && available != 2 {
-				lastCharSize, buffer, removed = this.backtrackOneCharacter(context, buffer, removed, lastCharSize)
+				_, buffer, removed = this.backtrackOneCharacter(context, buffer, removed, lastCharSize)
+				charSizes = charSizes[:len(charSizes)-1]
 			}
-			for (len(buffer)%3) == 1 && (lastCharSize > 3 || available != 1) {
-				lastCharSize, buffer, removed = this.backtrackOneCharacter(context, buffer, removed, lastCharSize)
+			for (len(buffer)%3) == 1 && (charSizes[len(charSizes)-1] > 2 || available != 1) {
+				_, buffer, removed = this.backtrackOneCharacter(context, buffer, removed, charSizes[len(charSizes)-1])
+				charSizes = charSizes[:len(charSizes)-1]
 			}
 			break
 		}
